@@ -1,0 +1,4 @@
+//! Facade for the concurrent-writers property of the RIB unit (C09): one
+//! shareable `RibUnitRunner` whose `process_update` is called from several
+//! OS threads. Re-exports only; see `units/rib_unit/verif_hooks_c09.rs`.
+pub use crate::units::rib_unit::unit::verif_hooks_c09::ConcRib;
